@@ -7,7 +7,10 @@
 
    [fixes] selects, per defect, between the code as it is in the repository
    (false) and the proposed repair (true):
-     fx_port0  parseSCPSSH: an explicit port of zero is an invalid port (C38)
+     fx_port0  formatSSH prints a port of zero when leaving it out would change
+               how the text is parsed: the path begins with digits and ':'
+               (it would be read as a port), or the text without the port
+               would be taken for a Docker URL (C38); parsing is unchanged
      fx_duser  parseDocker: an empty user name before '@' is rejected, as
                parseSCPSSH already does (C38)
      fx_dash   parseSCPSSH, parseDocker and EnsureValid reject a user, host or
@@ -226,15 +229,13 @@ Definition ssh_host_step (raw1 : str) : perr + (str * str) :=
   end.
 
 (* third loop: a run of digits followed by ':' is a port *)
-Definition ssh_port_step (fx : fixes) (raw2 : str) : perr + (N * str) :=
+Definition ssh_port_step (raw2 : str) : perr + (N * str) :=
   match break_at non_digit raw2 with
   | (digits, x :: after) =>
       if Byte.eqb x c_colon
       then match parse_uint16 digits with
            | None => inl EInvalidPort
-           | Some p =>
-               if fx_port0 fx && (p =? 0) then inl EInvalidPort
-               else inr (p, after)
+           | Some p => inr (p, after)
            end
       else inr (0, raw2)
   | (_, []) => inr (0, raw2)
@@ -255,7 +256,7 @@ Definition parse_ssh (fx : fixes) (raw : str) (k : kind) : perr + url :=
       | inl e => inl e
       | inr (host, raw2) =>
           if fx_dash fx && starts_with_dash host then inl EDash else
-          match ssh_port_step fx raw2 with
+          match ssh_port_step raw2 with
           | inl e => inl e
           | inr (port, path) =>
               match path_check k path with
@@ -364,11 +365,22 @@ End Local.
 
 (* ---------- Format("") ---------- *)
 
-Definition format_ssh (u : url) : str :=
+(* pathBeginsWithPortLikePrefix (repair): a possibly empty run of ASCII digits
+   followed by ':' -- what parseSCPSSH would read as a port specification *)
+Definition port_like_prefix (path : str) : bool :=
+  match break_at non_digit path with
+  | (_, x :: _) => Byte.eqb x c_colon
+  | (_, []) => false
+  end.
+
+Definition format_ssh (fx : fixes) (u : url) : str :=
   let r0 := u_host u in
   let r1 := match u_user u with [] => r0 | usr => usr ++ c_at :: r0 end in
-  let r2 := if u_port u =? 0 then r1 else r1 ++ c_colon :: N_to_dec (u_port u) in
-  r2 ++ c_colon :: u_path u.
+  let without_port := r1 ++ c_colon :: u_path u in
+  if negb (u_port u =? 0)
+     || (fx_port0 fx && (port_like_prefix (u_path u) || is_docker_url without_port))
+  then r1 ++ c_colon :: N_to_dec (u_port u) ++ c_colon :: u_path u
+  else without_port.
 
 Definition invalid_docker_url : str := Eval vm_compute in B "<invalid-docker-url>".
 
@@ -389,10 +401,10 @@ Definition format_docker (u : url) : str :=
   end.
 
 (* Format with an empty environment prefix (the reparsable form) *)
-Definition format (u : url) : str :=
+Definition format (fx : fixes) (u : url) : str :=
   match u_proto u with
   | PLocal => u_path u
-  | PSSH => format_ssh u
+  | PSSH => format_ssh fx u
   | PDocker => format_docker u
   end.
 
